@@ -92,15 +92,27 @@ Definition effective_hide (h : hide_val) (async out_given err_given : bool) : bo
 Record run_in := mkIn {
   ri_enc : enc;
   ri_out : list rev;        (* stdout read script *)
-  ri_err : list rev;        (* stderr read script (never read under a pty) *)
+  ri_err : list rev;        (* stderr read script (never read when a pty is in effect) *)
   ri_hide : hide_val;
   ri_out_given : bool;      (* explicit out_stream *)
   ri_err_given : bool;
-  ri_pty : bool;
+  ri_pty : bool;            (* a pty was ASKED for (the pty= option) *)
+  ri_stdin_fileno : bool;   (* sys.stdin has a usable fileno *)
+  ri_fallback : bool;       (* the fallback= option (default True) *)
   ri_async : bool;
   ri_out_mirror : mirror;   (* the stream stdout is forwarded to: advertised encoding, kind *)
   ri_err_mirror : mirror
 }.
+
+(** [Local.should_use_pty(pty, fallback)]: a pty is used when one was asked for, unless
+    sys.stdin has no fileno and falling back to plain pipes is allowed. *)
+Definition should_use_pty (pty stdin_fileno fallback : bool) : bool :=
+  if pty then (if negb stdin_fileno && fallback then false else true) else false.
+
+(** [self.using_pty]: what is in effect for this run.  [create_io_threads] starts the
+    stderr reader iff this is false -- whatever was asked for. *)
+Definition using_pty (i : run_in) : bool :=
+  should_use_pty (ri_pty i) (ri_stdin_fileno i) (ri_fallback i).
 
 Record run_obs := mkObs {
   ro_stdout : text;         (* Result.stdout (or the Result inside the failure) *)
@@ -115,7 +127,7 @@ Record run_obs := mkObs {
 Definition run_model (i : run_in) : run_obs :=
   let h := effective_hide (ri_hide i) (ri_async i) (ri_out_given i) (ri_err_given i) in
   let o := handle_output (ri_enc i) (fst h) (ri_out i) [] in
-  let e := if ri_pty i then mkLoop [] [] []
+  let e := if using_pty i then mkLoop [] [] []
            else handle_output (ri_enc i) (snd h) (ri_err i) [] in
   mkObs (List.concat (lo_buf o)) (List.concat (lo_buf e))
         (mirrored (ri_out_mirror i) (lo_writes o)) (mirrored (ri_err_mirror i) (lo_writes e))
@@ -124,7 +136,7 @@ Definition run_model (i : run_in) : run_obs :=
 Definition run_model_inc (i : run_in) : run_obs :=
   let h := effective_hide (ri_hide i) (ri_async i) (ri_out_given i) (ri_err_given i) in
   let o := handle_output_inc (ri_enc i) (fst h) DInit (ri_out i) [] in
-  let e := if ri_pty i then mkLoop [] [] []
+  let e := if using_pty i then mkLoop [] [] []
            else handle_output_inc (ri_enc i) (snd h) DInit (ri_err i) [] in
   mkObs (List.concat (lo_buf o)) (List.concat (lo_buf e))
         (mirrored (ri_out_mirror i) (lo_writes o)) (mirrored (ri_err_mirror i) (lo_writes e))
@@ -134,7 +146,7 @@ Definition run_model_inc (i : run_in) : run_obs :=
 Definition run_writes_inc (i : run_in) : list text * list text :=
   let h := effective_hide (ri_hide i) (ri_async i) (ri_out_given i) (ri_err_given i) in
   let o := handle_output_inc (ri_enc i) (fst h) DInit (ri_out i) [] in
-  let e := if ri_pty i then mkLoop [] [] []
+  let e := if using_pty i then mkLoop [] [] []
            else handle_output_inc (ri_enc i) (snd h) DInit (ri_err i) [] in
   (map (write_our_output (ri_out_mirror i)) (lo_writes o),
    map (write_our_output (ri_err_mirror i)) (lo_writes e)).
@@ -142,4 +154,9 @@ Definition run_writes_inc (i : run_in) : list text * list text :=
 (** the same run with other mirror streams *)
 Definition with_mirrors (i : run_in) (mo me : mirror) : run_in :=
   mkIn (ri_enc i) (ri_out i) (ri_err i) (ri_hide i) (ri_out_given i) (ri_err_given i)
-       (ri_pty i) (ri_async i) mo me.
+       (ri_pty i) (ri_stdin_fileno i) (ri_fallback i) (ri_async i) mo me.
+
+(** the same run with another pty request / sys.stdin / fallback setting *)
+Definition with_pty_request (i : run_in) (pty stdin_fileno fallback : bool) : run_in :=
+  mkIn (ri_enc i) (ri_out i) (ri_err i) (ri_hide i) (ri_out_given i) (ri_err_given i)
+       pty stdin_fileno fallback (ri_async i) (ri_out_mirror i) (ri_err_mirror i).
